@@ -17,7 +17,7 @@ import os
 import re
 import time
 
-from common import Check, REPO, TRUSTED_COMMON, coq_bad_indices, run_impl, standard_proof_step
+from common import Check, REPO, ROOT, TRUSTED_COMMON, coq_bad_indices, run_impl, standard_proof_step
 from coqterm import clist, copt, cstr
 
 IMPORTS = "From XV Require Import Base.Str Base.Eqb Model.Graph Model.GraphCorr."
@@ -445,6 +445,14 @@ def run(ck: Check):
     core_seeds = seeds[:ck.n(3, 6)]
     dist = {}
     distinct = set()
+    # --replay FILE: only the input stored in the replay file (an operation on a core, or a pipeline job)
+    rp = None
+    if getattr(ck, "replay_file", None):
+        with open(ck.replay_file) as f:
+            rp = json.load(f).get("replay") or {}
+        ck.notes.append("replay of " + ck.replay_file)
+    KIND_OF = {"scc": "scc", "topo": "topo", "clusters": "clusters", "class_list": "class_list", "types": "types",
+               "sort_types_direct": "types_direct", "reset": "reset", "imports": "imports"}
 
     # ================================================================== A. the modelled cores
     N = ck.n(1, 4)
@@ -455,25 +463,29 @@ def run(ck: Check):
         kinds.append(kind)
         dist[kind] = dist.get(kind, 0) + 1
 
-    for _ in range(ck.n(90, 480)):
+    for o in ([rp.get("op"), rp.get("a"), rp.get("b")] if rp is not None else []):
+        if isinstance(o, dict) and o.get("op") in KIND_OF:
+            add(KIND_OF[o["op"]], {k: v for k, v in o.items() if k != "of"})
+    gen_cores = rp is None
+    for _ in range(ck.n(90, 480) if gen_cores else 0):
         add("scc", {"op": "scc", "edges": g_graph(r)})
-    for _ in range(120 * N):
+    for _ in range(120 * N if gen_cores else 0):
         add("topo", {"op": "topo", "data": g_topo(r)})
-    for _ in range(ck.n(70, 360)):
+    for _ in range(ck.n(70, 360) if gen_cores else 0):
         specs = g_classes(r)
         op = {"op": "clusters", "classes": specs}
         if r.random() < 0.7:
             qs = [s["qname"] for s in specs]
             op["sort_group"] = r.sample(qs, r.randint(1, len(qs)))
         add("clusters", op)
-    for _ in range(50 * N):
+    for _ in range(50 * N if gen_cores else 0):
         add("class_list", {"op": "class_list", "classes": g_classes(r)})
-    for _ in range(80 * N):
+    for _ in range(80 * N if gen_cores else 0):
         add("types", {"op": "types", "types": g_types(r)})
     add("types_direct", {"op": "sort_types_direct", "order": ["bytes", "object"]})
     add("types_direct", {"op": "sort_types_direct", "order": ["object", "bytes"]})
     add("types_direct", {"op": "sort_types_direct", "order": ["str", "object", "int", "bytes"]})
-    for _ in range(80 * N):
+    for _ in range(80 * N if gen_cores else 0):
         base, attrs = g_reset(r)
         add("reset", {"op": "reset", "base": base, "attrs": attrs})
         if attrs and r.random() < 0.5:  # the same class under another (injective, non-zero) labelling of the ids
@@ -483,7 +495,7 @@ def run(ck: Check):
             add("reset_relabel", {"op": "reset", "base": base, "attrs": [m.get(a, a) for a in attrs], "of": len(ops) - 1})
     add("reset", {"op": "reset", "base": None, "attrs": [11, 11, 12, 12]})
     add("reset", {"op": "reset", "base": None, "attrs": [7, 7, 7, 7]})  # = the collision witness relabelled by (fun _ => 7)
-    for _ in range(50 * N):
+    for _ in range(50 * N if gen_cores else 0):
         add("imports", {"op": "imports", "imports": g_imports(r)})
 
     with cf.ThreadPoolExecutor(max_workers=8) as ex:
@@ -635,7 +647,7 @@ def run(ck: Check):
                            {"op": ops[i], "a": a, "b": b})
         if (0, i) in unguarded:
             tie_orders.add(tuple(t for t in a["native"] if t in ("bytes", "object")))
-    d = [per_seed[0][i] for i in idx("types_direct")]
+    d = [per_seed[0][i] for i in idx("types_direct")][-3:]
     dterms = [f"({c_lstr(ops[i]['order'])}, {c_lstr(per_seed[0][i]['sorted'])})" for i in idx("types_direct")]
     for i in coq("types_direct", "list str * list str", "agree_types", idx("types_direct"), dterms):
         ck.failure("corr-sort-types", "model and implementation disagree on sort_types (explicit order)", {"op": ops[i], "impl": per_seed[0][i]})
@@ -679,182 +691,202 @@ def run(ck: Check):
     def add_job(jid, sources, options, entry=None, timeout=90):
         jobs.append({"op": "pipeline", "id": jid, "sources": sources, "options": options, "entry": entry, "timeout": timeout})
 
-    for name, (sources, entry) in fsets.items():
+    if rp is not None:
+        rj = rp.get("job")
+        if isinstance(rj, dict) and rj.get("id") not in ("header", "idreuse"):
+            add_job("replay:" + str(rj.get("id")), rj["sources"], rj.get("options") or {}, rj.get("entry"))
+    else:
+        # corpus: pipeline jobs of earlier violations run first
+        rdir = os.path.join(ROOT, "replays", ck.pid)
+        for fn in sorted(os.listdir(rdir)) if os.path.isdir(rdir) else []:
+            try:
+                with open(os.path.join(rdir, fn)) as f:
+                    old = json.load(f)
+                rj = (old.get("replay") or {}).get("job")
+                if isinstance(rj, dict) and old.get("class") != "id-reuse-sequence-collision" and rj.get("id") not in ("header", "idreuse"):
+                    add_job("corpus:" + fn[:-5], rj["sources"], rj.get("options") or {}, rj.get("entry"))
+            except Exception:  # noqa
+                pass
+    for name, (sources, entry) in (fsets.items() if rp is None else []):
         styles = STYLES if not ck.quick else r.sample(STYLES, 1 if name == "mathml3" else 3)
         for st in styles:
             if name in ("dtd", "artists", "series", "stripe", "mixed-kinds") and st == "namespace-clusters" and ck.quick:
                 continue
             add_job(f"{name}/{st}", sources, g_options(r, st), entry)
-    ngen = ck.n(10, 50)
+    ngen = ck.n(10, 50) if rp is None else 0
     for k in range(ngen):
         sources = g_schema_set(r)
         for st in r.sample(STYLES, 2 if ck.quick else 3):
             add_job(f"gen{k}/{st}", sources, g_options(r, st))
     ck.cov["pipeline_jobs"] = len(jobs)
 
-    # config-file route: options -> GeneratorConfig.write -> text -> GeneratorConfig.read
-    rt = run_impl("impl_c12.py", {"ops": [{"op": "config_roundtrip", "options": j["options"]} for j in jobs]}, timeout=600,
-                  with_shims=True, hashseed=seeds[0])["results"]
-    cfg_jobs = []
-    for j, x in zip(jobs, rt):
-        if "harness_error" in x:
-            raise RuntimeError("config_roundtrip failed: " + x["trace"])
-        if not x["write_deterministic"]:
-            ck.failure("config-write-nondeterministic", "GeneratorConfig.write produced two different texts", {"options": j["options"]})
-        if not x["equal"]:
-            ck.failure("config-file-roundtrip", "GeneratorConfig.write -> read does not give back the configuration",
-                       {"options": j["options"], "xml": x["xml"], "before": x["a"], "after": x["b"]})
-        cfg_jobs.append(dict(j, options={"config_xml": x["xml"]}))
+    ref = []
+    if jobs:
+        # config-file route: options -> GeneratorConfig.write -> text -> GeneratorConfig.read
+        rt = run_impl("impl_c12.py", {"ops": [{"op": "config_roundtrip", "options": j["options"]} for j in jobs]}, timeout=600,
+                      with_shims=True, hashseed=seeds[0])["results"]
+        cfg_jobs = []
+        for j, x in zip(jobs, rt):
+            if "harness_error" in x:
+                raise RuntimeError("config_roundtrip failed: " + x["trace"])
+            if not x["write_deterministic"]:
+                ck.failure("config-write-nondeterministic", "GeneratorConfig.write produced two different texts", {"options": j["options"]})
+            if not x["equal"]:
+                ck.failure("config-file-roundtrip", "GeneratorConfig.write -> read does not give back the configuration",
+                           {"options": j["options"], "xml": x["xml"], "before": x["a"], "after": x["b"]})
+            cfg_jobs.append(dict(j, options={"config_xml": x["xml"]}))
 
-    all_idx = list(range(len(jobs)))
-    heavy = [i for i in all_idx if jobs[i]["id"].startswith("mathml3")]
-    light = [i for i in all_idx if i not in heavy]
-    tasks = []   # (label, seed, job list, indices)
-    if ck.quick:
-        # the 20 s mathml3 job: both runs of the first seed, one run of the next two; everything else everywhere
-        for si, s in enumerate(seeds):
-            for k in (1, 2):
-                tasks.append((f"seed {s} run {k}", s, jobs, all_idx if (si == 0 or (si < 3 and k == 1)) else light))
-    else:
-        # every job under the first 8 seeds (the first 4 twice; the 20 s mathml3 jobs twice under the first seed only),
-        # plus a rotating quarter of the light jobs under each of the remaining seeds: every light job sees 8 + 14 seeds
-        for si, s in enumerate(seeds):
-            if si < 8:
-                tasks.append((f"seed {s} run 1", s, jobs, all_idx))
-                if si < 4:
-                    tasks.append((f"seed {s} run 2", s, jobs, light + (heavy if si == 0 else [])))
-            else:
-                tasks.append((f"seed {s} run 1", s, jobs, [i for i in light if i % 4 == si % 4]))
-    tasks.append((f"seed {seeds[0]} via .xsdata.xml", seeds[0], cfg_jobs, light if ck.quick else all_idx))
-    labels = [t[0] for t in tasks]
-
-    def batch(task):
-        _, seed, jb, idxs = task
-        res = run_impl("impl_c12.py", {"ops": [jb[i] for i in idxs]}, timeout=3000, with_shims=True, hashseed=seed)["results"]
-        full = [None] * len(jb)
-        for i, x in zip(idxs, res):
-            full[i] = x
-        return full
-
-    with cf.ThreadPoolExecutor(max_workers=ck.n(9, 12)) as ex:
-        outs = list(ex.map(batch, tasks))
-    ck.cov["evaluations"] += sum(len(t[3]) for t in tasks)
-    ref = outs[0]
-    status_count = {}
-    for j, x in zip(jobs, ref):
-        if "harness_error" in x:
-            raise RuntimeError("pipeline job failed in the harness: " + x["trace"])
-        status_count[x["status"]] = status_count.get(x["status"], 0) + 1
-        if x["status"] == "ok":
-            distinct.add(("pipeline", j["id"]))
-        if x["status"] == "timeout":
-            ck.notes.append(f"job {j['id']} timed out")
-    ck.cov["pipeline_status"] = status_count
-    ndiff = 0
-    id_only = []
-    for t, (out, label) in enumerate(zip(outs, labels)):
-        if t == 0:
-            continue
-        for j, a, b in zip(jobs, ref, out):
-            if b is None:
-                continue
-            if "harness_error" in b:
-                raise RuntimeError("pipeline job failed in the harness: " + b["trace"])
-            if a["status"] == "timeout" or b["status"] == "timeout":
-                continue
-            route = "config-file-route" if "xsdata.xml" in label else (
-                "repeat-run" if label.startswith(f"seed {seeds[0]} ") else "hash-seed")
-            replay = {"job": {k: j[k] for k in ("id", "sources", "options", "entry")}, "a": labels[0], "b": label,
-                      "how": "run harness/impl_c12.py (run_impl, with_shims) on {'ops':[dict(job, op='pipeline')]} under the two hash seeds"}
-            d = first_diff(view(a), view(b))
-            if d:
-                ndiff += 1
-                # narrow class of the known finding: the ONLY differences are (i) which id()-derived numbers coincide,
-                # (ii) the sequence numbers derived from them, (iii) `"sequence": n` lines of the files
-                explained = (a["status"] == b["status"] == "ok" and a["classes"] != b["classes"]
-                             and seq_blind(id_blind(a["classes"])) == seq_blind(id_blind(b["classes"]))
-                             and only_sequence_lines_differ(a["files"], b["files"]))
-                hint = ""
-                ck.failure("id-reuse-sequence-collision" if explained else route + "-output-differs",
-                           f"job {j['id']}: {labels[0]} vs {label}: first difference at {d[0]}: {str(d[1])[:120]!r} vs {str(d[2])[:120]!r}{hint}",
-                           dict(replay, first_difference={"where": d[0], "a": d[1], "b": d[2]}))
-            elif a["classes"] != b["classes"]:
-                dc = first_diff(a["classes"], b["classes"])
-                if id_blind(a["classes"]) == id_blind(b["classes"]):
-                    # same files; only the coincidence pattern of id()-derived numbers differs: id() reuse without visible effect
-                    id_only.append({"job": j["id"], "a": labels[0], "b": label, "where": dc[0]})
+        all_idx = list(range(len(jobs)))
+        heavy = [i for i in all_idx if jobs[i]["id"].startswith("mathml3")]
+        light = [i for i in all_idx if i not in heavy]
+        tasks = []   # (label, seed, job list, indices)
+        if ck.quick:
+            # the 20 s mathml3 job: both runs of the first seed, one run of the next two; everything else everywhere
+            for si, s in enumerate(seeds):
+                for k in (1, 2):
+                    tasks.append((f"seed {s} run {k}", s, jobs, all_idx if (si == 0 or (si < 3 and k == 1)) else light))
+        else:
+            # every job under the first 8 seeds (the first 4 twice; the 20 s mathml3 jobs twice under the first seed only),
+            # plus a rotating quarter of the light jobs under each of the remaining seeds: every light job sees 8 + 14 seeds
+            for si, s in enumerate(seeds):
+                if si < 8:
+                    tasks.append((f"seed {s} run 1", s, jobs, all_idx))
+                    if si < 4:
+                        tasks.append((f"seed {s} run 2", s, jobs, light + (heavy if si == 0 else [])))
                 else:
+                    tasks.append((f"seed {s} run 1", s, jobs, [i for i in light if i % 4 == si % 4]))
+        tasks.append((f"seed {seeds[0]} via .xsdata.xml", seeds[0], cfg_jobs, light if ck.quick else all_idx))
+        labels = [t[0] for t in tasks]
+
+        def batch(task):
+            _, seed, jb, idxs = task
+            res = run_impl("impl_c12.py", {"ops": [jb[i] for i in idxs]}, timeout=3000, with_shims=True, hashseed=seed)["results"]
+            full = [None] * len(jb)
+            for i, x in zip(idxs, res):
+                full[i] = x
+            return full
+
+        with cf.ThreadPoolExecutor(max_workers=ck.n(9, 12)) as ex:
+            outs = list(ex.map(batch, tasks))
+        ck.cov["evaluations"] += sum(len(t[3]) for t in tasks)
+        ref = outs[0]
+        status_count = {}
+        for j, x in zip(jobs, ref):
+            if "harness_error" in x:
+                raise RuntimeError("pipeline job failed in the harness: " + x["trace"])
+            status_count[x["status"]] = status_count.get(x["status"], 0) + 1
+            if x["status"] == "ok":
+                distinct.add(("pipeline", j["id"]))
+            if x["status"] == "timeout":
+                ck.notes.append(f"job {j['id']} timed out")
+        ck.cov["pipeline_status"] = status_count
+        ndiff = 0
+        id_only = []
+        for t, (out, label) in enumerate(zip(outs, labels)):
+            if t == 0:
+                continue
+            for j, a, b in zip(jobs, ref, out):
+                if b is None:
+                    continue
+                if "harness_error" in b:
+                    raise RuntimeError("pipeline job failed in the harness: " + b["trace"])
+                if a["status"] == "timeout" or b["status"] == "timeout":
+                    continue
+                route = "config-file-route" if "xsdata.xml" in label else (
+                    "repeat-run" if label.startswith(f"seed {seeds[0]} ") else "hash-seed")
+                replay = {"job": {k: j[k] for k in ("id", "sources", "options", "entry")}, "a": labels[0], "b": label,
+                          "how": "run harness/impl_c12.py (run_impl, with_shims) on {'ops':[dict(job, op='pipeline')]} under the two hash seeds"}
+                d = first_diff(view(a), view(b))
+                if d:
                     ndiff += 1
-                    ck.failure(route + "-processed-classes-differ",
-                               f"job {j['id']}: {labels[0]} vs {label}: same files, processed classes differ at {dc[0]}: {str(dc[1])[:120]!r} vs {str(dc[2])[:120]!r}",
-                               dict(replay, first_difference={"where": dc[0], "a": dc[1], "b": dc[2]}))
-            # messages are not generated files; recorded, not judged
-            if (a.get("error") or {}).get("message") != (b.get("error") or {}).get("message") and not d:
-                ck.notes.append(f"job {j['id']}: error message text differs between {labels[0]} and {label}")
-    ck.cov["pipeline_differences"] = ndiff
-    ck.cov["id_coincidence_only_differences"] = {"count": len(id_only), "samples": id_only[:5],
-                                                 "meaning": "identical files; the processed classes differ only in WHICH id()-derived numbers are equal "
-                                                            "(id() reuse that had no visible effect in this run)"}
-    ck.cov["pipeline_files_compared"] = sum(len((ref[i].get("files") or {})) for t in tasks[1:] for i in t[3])
+                    # narrow class of the known finding: the ONLY differences are (i) which id()-derived numbers coincide,
+                    # (ii) the sequence numbers derived from them, (iii) `"sequence": n` lines of the files
+                    explained = (a["status"] == b["status"] == "ok" and a["classes"] != b["classes"]
+                                 and seq_blind(id_blind(a["classes"])) == seq_blind(id_blind(b["classes"]))
+                                 and only_sequence_lines_differ(a["files"], b["files"]))
+                    hint = ""
+                    ck.failure("id-reuse-sequence-collision" if explained else route + "-output-differs",
+                               f"job {j['id']}: {labels[0]} vs {label}: first difference at {d[0]}: {str(d[1])[:120]!r} vs {str(d[2])[:120]!r}{hint}",
+                               dict(replay, first_difference={"where": d[0], "a": d[1], "b": d[2]}))
+                elif a["classes"] != b["classes"]:
+                    dc = first_diff(a["classes"], b["classes"])
+                    if id_blind(a["classes"]) == id_blind(b["classes"]):
+                        # same files; only the coincidence pattern of id()-derived numbers differs: id() reuse without visible effect
+                        id_only.append({"job": j["id"], "a": labels[0], "b": label, "where": dc[0]})
+                    else:
+                        ndiff += 1
+                        ck.failure(route + "-processed-classes-differ",
+                                   f"job {j['id']}: {labels[0]} vs {label}: same files, processed classes differ at {dc[0]}: {str(dc[1])[:120]!r} vs {str(dc[2])[:120]!r}",
+                                   dict(replay, first_difference={"where": dc[0], "a": dc[1], "b": dc[2]}))
+                # messages are not generated files; recorded, not judged
+                if (a.get("error") or {}).get("message") != (b.get("error") or {}).get("message") and not d:
+                    ck.notes.append(f"job {j['id']}: error message text differs between {labels[0]} and {label}")
+        ck.cov["pipeline_differences"] = ndiff
+        ck.cov["id_coincidence_only_differences"] = {"count": len(id_only), "samples": id_only[:5],
+                                                     "meaning": "identical files; the processed classes differ only in WHICH id()-derived numbers are equal "
+                                                                "(id() reuse that had no visible effect in this run)"}
+        ck.cov["pipeline_files_compared"] = sum(len((ref[i].get("files") or {})) for t in tasks[1:] for i in t[3])
 
     # ---- include_header: the header carries the generation time (by design)
-    hdr = {"op": "pipeline", "id": "header", "sources": fsets["primer"][0], "options": {"include_header": True}}
-    h1 = run_impl("impl_c12.py", {"ops": [hdr]}, with_shims=True, hashseed=seeds[0])["results"][0]
-    time.sleep(1.1)
-    h2 = run_impl("impl_c12.py", {"ops": [hdr]}, with_shims=True, hashseed=seeds[0])["results"][0]
-    ck.cov["evaluations"] += 2
-    if h1["files"] != h2["files"]:
-        m1 = {k: TS.sub("on <TIME>", v) for k, v in h1["files"].items()}
-        m2 = {k: TS.sub("on <TIME>", v) for k, v in h2["files"].items()}
-        d = first_diff(h1["files"], h2["files"])
-        if m1 == m2:
-            ck.failure("include-header-timestamp", f"two runs differ only in the header time stamp ({d[0]}: {d[1]!r} vs {d[2]!r})",
-                       {"job": hdr, "first_difference": d})
-        else:
-            ck.failure("repeat-run-differs", "two runs with include_header differ beyond the time stamp", {"job": hdr, "first_difference": first_diff(m1, m2)})
+    if rp is None or (rp.get("job") or {}).get("id") == "header":
+        hdr = {"op": "pipeline", "id": "header", "sources": fsets["primer"][0], "options": {"include_header": True}}
+        h1 = run_impl("impl_c12.py", {"ops": [hdr]}, with_shims=True, hashseed=seeds[0])["results"][0]
+        time.sleep(1.1)
+        h2 = run_impl("impl_c12.py", {"ops": [hdr]}, with_shims=True, hashseed=seeds[0])["results"][0]
+        ck.cov["evaluations"] += 2
+        if h1["files"] != h2["files"]:
+            m1 = {k: TS.sub("on <TIME>", v) for k, v in h1["files"].items()}
+            m2 = {k: TS.sub("on <TIME>", v) for k, v in h2["files"].items()}
+            d = first_diff(h1["files"], h2["files"])
+            if m1 == m2:
+                ck.failure("include-header-timestamp", f"two runs differ only in the header time stamp ({d[0]}: {d[1]!r} vs {d[2]!r})",
+                           {"job": hdr, "first_difference": d})
+            else:
+                ck.failure("repeat-run-differs", "two runs with include_header differ beyond the time stamp", {"job": hdr, "first_difference": first_diff(m1, m2)})
 
     # ---- id() reuse (known finding): compositor ids of released schemas are reused
-    t_id = time.time()
-    K = 150
-    job_id = {"op": "pipeline", "id": "idreuse", "sources": idreuse_sources(K), "options": {}, "raw_classes": True, "timeout": 120}
-    id_tasks = [s for s in seeds[:4] for _ in (0, 1)]
-    with cf.ThreadPoolExecutor(max_workers=8) as ex:
-        pbs = list(ex.map(lambda s: run_impl("impl_c12.py", {"ops": [job_id]}, with_shims=True, hashseed=s, timeout=600)["results"][0], id_tasks))
-    ck.cov["evaluations"] += len(pbs)
-    idr = {"runs": [], "expected_distinct_sequences": 2 * K}
-    reset_items, reset_terms, runs = [], [], []
-    for s, pb in zip(id_tasks, pbs):
-        if pb.get("status") != "ok":
-            idr["runs"].append({"hashseed": s, "status": pb.get("status")})
-            continue
-        rows = seq_ids(pb["raw_classes"]).get("C", [])
-        seqs, sids = [x[1] for x in rows], [x[2] for x in rows]
-        merged = {}
-        for nm, sq, sid in rows:
-            merged.setdefault(sid, set()).add(nm.split("_", 1)[0][1:] + "_" + nm.split("_", 1)[1])
-        coll = sorted(sorted(v) for v in merged.values() if len(v) > 1)
-        runs.append({"hashseed": s, "distinct": len(set(seqs)), "collisions": coll, "files": pb["files"], "rows": rows})
-        idr["runs"].append({"hashseed": s, "distinct_sequence_numbers": len(set(seqs)), "groups_sharing_an_id": coll[:6]})
-        reset_items.append(s)
-        reset_terms.append(f"({c_lon([])}, {c_lon(sids)}, {c_lon(seqs)})")
-    # the faithful model, given the ids the implementation really used, yields exactly the generated numbers
-    for s in coq("idreuse_reset", "list (option N) * list (option N) * list (option N)", "agree_reset", reset_items, reset_terms, shard=2):
-        ck.failure("corr-reset-sequence-numbers", "model and implementation disagree on the sequence numbers of the id-reuse witness", {"seed": s})
-    bad = [x for x in runs if x["distinct"] != 2 * K]
-    if bad:
-        x = min(bad, key=lambda y: len(y["collisions"]))
-        other = next((y for y in runs if y["files"] != x["files"]), None)
-        what = (f"{2 * K} distinct xs:sequence compositors in 2 files, one class referring to all of them: under hash seed {x['hashseed']} "
-                f"only {x['distinct']} sequence numbers are generated; groups merged because their xs:sequence objects got the same id(): "
-                f"{x['collisions'][:4]}")
-        if other:
-            d = first_diff(x["files"], other["files"])
-            what += f"; another run (hash seed {other['hashseed']}) generates {other['distinct']} and different files ({d[0]}: {d[1]!r} vs {d[2]!r})"
-        ck.failure("id-reuse-sequence-collision", what,
-                   {"job": {k: job_id[k] for k in ("id", "sources", "options")}, "hashseed": x["hashseed"], "collisions": x["collisions"],
-                    "distinct_sequence_numbers_per_run": [[y["hashseed"], y["distinct"]] for y in runs]})
-    idr["wall_s"] = round(time.time() - t_id, 1)
-    ck.cov["id_reuse_search"] = idr
+    if rp is None or (rp.get("job") or {}).get("id") == "idreuse":
+        t_id = time.time()
+        K = 150
+        job_id = {"op": "pipeline", "id": "idreuse", "sources": idreuse_sources(K), "options": {}, "raw_classes": True, "timeout": 120}
+        id_tasks = [s for s in seeds[:4] for _ in (0, 1)]
+        with cf.ThreadPoolExecutor(max_workers=8) as ex:
+            pbs = list(ex.map(lambda s: run_impl("impl_c12.py", {"ops": [job_id]}, with_shims=True, hashseed=s, timeout=600)["results"][0], id_tasks))
+        ck.cov["evaluations"] += len(pbs)
+        idr = {"runs": [], "expected_distinct_sequences": 2 * K}
+        reset_items, reset_terms, runs = [], [], []
+        for s, pb in zip(id_tasks, pbs):
+            if pb.get("status") != "ok":
+                idr["runs"].append({"hashseed": s, "status": pb.get("status")})
+                continue
+            rows = seq_ids(pb["raw_classes"]).get("C", [])
+            seqs, sids = [x[1] for x in rows], [x[2] for x in rows]
+            merged = {}
+            for nm, sq, sid in rows:
+                merged.setdefault(sid, set()).add(nm.split("_", 1)[0][1:] + "_" + nm.split("_", 1)[1])
+            coll = sorted(sorted(v) for v in merged.values() if len(v) > 1)
+            runs.append({"hashseed": s, "distinct": len(set(seqs)), "collisions": coll, "files": pb["files"], "rows": rows})
+            idr["runs"].append({"hashseed": s, "distinct_sequence_numbers": len(set(seqs)), "groups_sharing_an_id": coll[:6]})
+            reset_items.append(s)
+            reset_terms.append(f"({c_lon([])}, {c_lon(sids)}, {c_lon(seqs)})")
+        # the faithful model, given the ids the implementation really used, yields exactly the generated numbers
+        for s in coq("idreuse_reset", "list (option N) * list (option N) * list (option N)", "agree_reset", reset_items, reset_terms, shard=2):
+            ck.failure("corr-reset-sequence-numbers", "model and implementation disagree on the sequence numbers of the id-reuse witness", {"seed": s})
+        bad = [x for x in runs if x["distinct"] != 2 * K]
+        if bad:
+            x = min(bad, key=lambda y: len(y["collisions"]))
+            other = next((y for y in runs if y["files"] != x["files"]), None)
+            what = (f"{2 * K} distinct xs:sequence compositors in 2 files, one class referring to all of them: under hash seed {x['hashseed']} "
+                    f"only {x['distinct']} sequence numbers are generated; groups merged because their xs:sequence objects got the same id(): "
+                    f"{x['collisions'][:4]}")
+            if other:
+                d = first_diff(x["files"], other["files"])
+                what += f"; another run (hash seed {other['hashseed']}) generates {other['distinct']} and different files ({d[0]}: {d[1]!r} vs {d[2]!r})"
+            ck.failure("id-reuse-sequence-collision", what,
+                       {"job": {k: job_id[k] for k in ("id", "sources", "options")}, "hashseed": x["hashseed"], "collisions": x["collisions"],
+                        "distinct_sequence_numbers_per_run": [[y["hashseed"], y["distinct"]] for y in runs]})
+        idr["wall_s"] = round(time.time() - t_id, 1)
+        ck.cov["id_reuse_search"] = idr
 
     # ================================================================== evidence
     ck.cov["distinct_nontrivial"] = len(distinct)
@@ -870,9 +902,9 @@ def run(ck: Check):
                         "cache_flag": "not exercised"}
     ck.cov["wall_cores_s"] = round(t_cores, 1)
     ck.cov["coq_case_files"] = coq_times
-    ck.cov["samples"] = [{"job": jobs[0]["id"], "options": jobs[0]["options"], "files": ref[0]["file_list"]},
-                         {"scc": ops[idx("scc")[0]], "impl": per_seed[0][idx("scc")[0]]},
-                         {"clusters_modules": per_seed[0][idx("clusters")[0]].get("modules")}]
+    ck.cov["samples"] = ([{"job": jobs[0]["id"], "options": jobs[0]["options"], "files": ref[0].get("file_list")}] if jobs else []) + \
+        ([{"scc": ops[idx("scc")[0]], "impl": per_seed[0][idx("scc")[0]]}] if idx("scc") else []) + \
+        ([{"clusters_modules": per_seed[0][idx("clusters")[0]].get("modules")}] if idx("clusters") else [])
     return ck.finish(obligations=obligations, discharged=discharged,
                      checker_cmd="make -C coq Properties/C12.vo Model/GraphCorr.vo && coqc -Q coq XV coq/Properties/C12.v (Print Assumptions)",
                      trusted_base=TRUSTED_COMMON + [
